@@ -143,7 +143,7 @@ fn for_each_token_string<F: Fn(&str) + Sync>(alpha: &[&str], maxlen: usize, join
 pub fn run(mode: Mode, run: &Run) {
     let quick = run.quick();
     if mode == Mode::C14 {
-        run.set_rule("(i) every term of T_0..T_2 and depth-3 combinations over a 4-leaf alphabet (fully parenthesised by the generator, so in the image of the parser after one parse), every rule of C01's alphabets, programs of several rules, every head kind, empty bodies, #false heads; (ii) every string of <= 4 (thorough 7) tokens over a 15-token term alphabet and a 16-token rule alphabet, joined with and without blanks: for each text anthem accepts, parse(print(t)) == t and print is a fixpoint; non-trivial = distinct printed texts (hashed to 4096 buckets)");
+        run.set_rule("(i) every term of T_0..T_2 and depth-3 combinations over a 4-leaf alphabet (fully parenthesised by the generator, so in the image of the parser after one parse), every rule of C01's alphabets, programs of several rules, every head kind, empty bodies, #false heads; (ii) every string of <= 4 (thorough 7) tokens over a 15-token term alphabet (thorough 7) and a 16-token rule alphabet (thorough 6), each joined with and without blanks: for each text anthem accepts, parse(print(t)) == t and print is a fixpoint; non-trivial = distinct printed texts (hashed to 4096 buckets)");
     } else {
         run.set_rule("(i) every formula of families A-G, every integer/general/symbolic term shape, annotated formulas with every role x direction x name, user-guide entries of every kind, theories/specifications/user guides of several entries; (ii) every string of <= 4 (thorough 6) tokens over a 24-token formula alphabet; (iii) the output of tau-star, natural, mu, gamma, completion on C01's rules and of the three portfolios on C07's formulas: for each text anthem accepts, parse(print(t)) == t and print is a fixpoint; non-trivial = distinct printed texts (hashed to 4096 buckets)");
     }
@@ -192,7 +192,8 @@ pub fn run(mode: Mode, run: &Run) {
         });
         run.set_extra("term_token_strings", json!(n));
         let ra = ["p", "q(X)", ":-", ",", ".", "not", "{", "}", "#false", "X", "=", "<", "1", "-", ";", "p(-1)"];
-        let n = for_each_token_string(&ra, if quick { 4 } else { 7 }, &[" "], |t| {
+        // joined with blanks and without: `not=1` and `not = 1` are different token sequences for the grammar
+        let n = for_each_token_string(&ra, if quick { 4 } else { 6 }, &[" ", ""], |t| {
             round_trip::<asp::Program>(run, "program", t);
         });
         run.set_extra("rule_token_strings", json!(n));
